@@ -302,6 +302,8 @@ def run(ctx):
             sp2 = gen.ranked(rnd, ties=True, maxn=5, maxb=4)
             for b in sp2["ballots"]:  # keep the expansion small
                 b["r"] = [g[:3] for g in b["r"]]
+                if rnd.random() < 0.3:  # weights whose equal shares need denominators far above 10^6
+                    b["w"] = canon.fs(rnd.choice([F(1, 1000003), F(5, 7) ** 8, F(2, 3) ** 12, F(3, 99991), F(10 ** 9 + 7, 3)]))
             ctx.guard("expand", check_expand, ctx, {"kind": "expand", "profile": sp2})
         cs2 = gen.cands(rnd, rnd.randint(1, 5))
         bl = [([rnd.choice(cs2) for _ in range(rnd.randint(1, 5))], canon.fs(gen.weight(rnd, "mixed"))) for _ in range(rnd.randint(1, 6))]
